@@ -222,3 +222,114 @@ Proof.
     + exists out, t'. split; [exact H1|]. split; [exact H2|]. split; [exact H3 | exact H4].
 Qed.
 Print Assumptions C15_main_theorem_applies.
+
+(* ---- "test operations that pass leave the output bytes identical to those of the same patch without
+   them" (TestTransparent.v).  DOMAIN: the simulation domain of C01 plus the clause's own quantifier —
+   the document and the values stored by the non-test operations are spelled as the encoder spells them
+   (canonical_spelling); test values may be spelled in any way.  The hypothesis is needed:
+   C15_test_respells_member_names. ---- *)
+From JP Require TestTransparent.
+
+(* in that domain the bytes Apply returns are a function of the RFC 6902 result alone *)
+Theorem C15_output_is_canonical_encoding_of_rfc_result : forall o indent p doc t,
+  plain_opts o -> parse doc = Some t -> root_container t = true -> tnodup t = true ->
+  Forall op_dom p ->
+  copies_fit (dia o) (den t) (map den_op p) = true ->
+  canonical_spelling (o_esc o) t = true ->
+  Forall (TestTransparent.stored_canon (o_esc o)) p ->
+  match rfc_apply (dia o) (den t) (map den_op p) with
+  | Done j => api_apply o indent p doc = ROut (output o indent (TestTransparent.cenc (o_esc o) j))
+  | Failed i cz => exists e, api_apply o indent p doc = RErr (Some i) e /\ cause_rel cz e
+  end.
+Proof. exact TestTransparent.api_apply_canonical_bytes. Qed.
+Print Assumptions C15_output_is_canonical_encoding_of_rfc_result.
+
+Theorem C15_passing_tests_transparent : forall o indent p doc t out,
+  plain_opts o -> parse doc = Some t -> root_container t = true -> tnodup t = true ->
+  Forall op_dom p ->
+  copies_fit (dia o) (den t) (map den_op p) = true ->
+  canonical_spelling (o_esc o) t = true ->
+  Forall (TestTransparent.stored_canon (o_esc o)) p ->
+  api_apply o indent p doc = ROut out ->
+  api_apply o indent (filter TestTransparent.not_test p) doc = ROut out.
+Proof. exact TestTransparent.passing_tests_transparent. Qed.
+Print Assumptions C15_passing_tests_transparent.
+
+(* the same on the boolean domain the harness evaluates, for a decoded patch *)
+Theorem C15_passing_tests_transparent_decoded : forall o indent patch p doc t out,
+  plain_opts o ->
+  api_decode patch = Some p -> in_domain_C01 p = true -> forallb PointerDomain.op_small p = true ->
+  parse doc = Some t -> root_container t = true -> tnodup t = true ->
+  copies_fit (dia o) (den t) (map den_op p) = true ->
+  canonical_spelling (o_esc o) t = true -> forallb (TestTransparent.stored_canonb (o_esc o)) p = true ->
+  api_apply o indent p doc = ROut out ->
+  api_apply o indent (filter TestTransparent.not_test p) doc = ROut out.
+Proof. exact TestTransparent.passing_tests_transparent_decoded. Qed.
+Print Assumptions C15_passing_tests_transparent_decoded.
+
+(* conversely, adding tests to a patch that succeeds can only make it fail: never other bytes *)
+Theorem C15_tests_only_pass_or_fail : forall o indent p doc t out,
+  plain_opts o -> parse doc = Some t -> root_container t = true -> tnodup t = true ->
+  Forall op_dom p ->
+  copies_fit (dia o) (den t) (map den_op p) = true ->
+  canonical_spelling (o_esc o) t = true ->
+  Forall (TestTransparent.stored_canon (o_esc o)) p ->
+  api_apply o indent (filter TestTransparent.not_test p) doc = ROut out ->
+  api_apply o indent p doc = ROut out \/ exists i e, api_apply o indent p doc = RErr (Some i) e.
+Proof. exact TestTransparent.tests_only_pass_or_fail. Qed.
+Print Assumptions C15_tests_only_pass_or_fail.
+
+(* the spelling hypothesis is needed: a passing test below a member whose NAME is spelled with an escape
+   the encoder would not use makes the decoder re-spell that name *)
+Example C15_test_respells_member_names :
+  match api_decode TestTransparent.ex1_patch, parse TestTransparent.ex1_doc with
+  | Some p, Some t =>
+      api_apply (TestTransparent.tt_opts false) [] p TestTransparent.ex1_doc = ROut (B "{""a"":{""/"":1}}") /\
+      api_apply (TestTransparent.tt_opts false) [] (filter TestTransparent.not_test p) TestTransparent.ex1_doc
+        = ROut (B "{""a"":{""\/"":1}}") /\
+      canonical_spelling false t = false
+  | _, _ => False
+  end.
+Proof. vm_compute. repeat split; reflexivity. Qed.
+
+(* ---- "in valid UTF-8 (given UTF-8 input)" (Utf8Out.v).  utf8_text is Codec.utf8: the byte string is a
+   concatenation of well-formed UTF-8 sequences as Go's utf8.Valid / DecodeRune understand it.  Every
+   options record; no domain restriction on paths or operations. ---- *)
+From JP Require Utf8Out.
+
+(* the encoder writes UTF-8 whatever the Go string holds (ill-formed bytes become the U+FFFD escape) *)
+Theorem C15_encoder_writes_utf8 : forall esc s, Utf8Out.utf8_text (quote esc s).
+Proof. exact Utf8Out.utf8_quote. Qed.
+Print Assumptions C15_encoder_writes_utf8.
+
+Theorem C15_apply_output_utf8 : forall o indent p doc out,
+  Utf8Out.utf8_text doc -> Forall Utf8Out.op_utf8 p -> Utf8Out.utf8_text indent ->
+  api_apply o indent p doc = ROut out -> Utf8Out.utf8_text out.
+Proof. exact Utf8Out.api_apply_utf8. Qed.
+Print Assumptions C15_apply_output_utf8.
+
+(* document and patch given as UTF-8 texts, the indent made of white space *)
+Theorem C15_apply_output_utf8_decoded : forall o indent patch p doc out,
+  Utf8Out.utf8_text doc -> Utf8Out.utf8_text patch -> api_decode patch = Some p -> wsb indent = true ->
+  api_apply o indent p doc = ROut out -> Utf8Out.utf8_text out.
+Proof. exact Utf8Out.api_apply_utf8_decoded. Qed.
+Print Assumptions C15_apply_output_utf8_decoded.
+
+Theorem C15_merge_output_utf8 : forall mm doc patch out,
+  Utf8Out.utf8_text doc -> Utf8Out.utf8_text patch -> api_merge mm doc patch = MOut out -> Utf8Out.utf8_text out.
+Proof. exact Utf8Out.api_merge_utf8. Qed.
+Print Assumptions C15_merge_output_utf8.
+
+(* CreateMergePatch: every string and name of the result is written by the encoder — no input hypothesis *)
+Theorem C15_create_output_utf8 : forall a b out, api_create a b = MOut out -> Utf8Out.utf8_text out.
+Proof. exact Utf8Out.api_create_utf8. Qed.
+Print Assumptions C15_create_output_utf8.
+
+(* the input hypothesis is needed: an ill-formed byte inside a document string passes through verbatim *)
+Example C15_utf8_input_needed :
+  parse Utf8Out.ex_bad_doc <> None /\ ~ Utf8Out.utf8_text Utf8Out.ex_bad_doc /\
+  match api_apply (ex_opts true) [] [] Utf8Out.ex_bad_doc with
+  | ROut out => out = Utf8Out.ex_bad_doc /\ ~ Utf8Out.utf8_text out
+  | _ => False
+  end.
+Proof. exact Utf8Out.ex_utf8_input_needed. Qed.
